@@ -13,7 +13,12 @@ pub const CLAIMED: &[&str] = &["C02", "C03", "C06", "C07", "C08"];
 pub fn make_header(prop: &str, build_profile: &str, verif_seed: u64, run_index: u64) -> Header {
     let run_seed = derive(derive(verif_seed, prop, 0), build_profile, run_index);
     let mut r = Rng::sub(run_seed, "header", 0);
-    let dim = crate::generate::pick_dim(&mut r);
+    let dim = if prop == "C07" {
+        // flips with 2 <= k < D exist only for D >= 4: give those dimensions more of the budget
+        [2usize, 3, 4, 5][r.weighted(&[26, 30, 28, 16])]
+    } else {
+        crate::generate::pick_dim(&mut r)
+    };
     let kernel = if r.chance(1, 2) { "fast" } else { "robust" };
     let profile = profile_for(prop, false);
     let family = *r.pick(profile.families);
@@ -62,6 +67,8 @@ pub fn profile_for(prop: &str, thorough: bool) -> Profile {
         }
         "C07" => {
             p.max_len = if thorough { 30 } else { 18 };
+            p.legal_bias_permille = 500;
+            p.small_start_permille = 350;
             p.tune = Some(|w, r, d| {
                 w.k1_insert = 12;
                 w.k1_remove = 10;
